@@ -15,7 +15,7 @@ import datetime
 import re
 from fractions import Fraction
 
-from ..core import Sub, fail, isnum, enc
+from ..core import Sub, fail, isnum, enc, local_timezone, ZONES
 
 D = datetime.date
 DT = datetime.datetime
@@ -577,6 +577,66 @@ class Instants(Sub):
         return out
 
 
+TZ_DAYS = ['1900-03-01', '1969-12-31', '1970-01-01', '2021-01-15', '2021-03-14', '2021-03-28', '2021-06-15', '2021-09-26',
+           '2021-10-31', '2021-11-07', '2038-01-19', '9999-12-31']
+
+
+class Timezones(Sub):
+    name = 'c13.timezones'
+    rule = ('6 local time zones of the process (UTC, US Eastern and UK with daylight saving, India +5:30, New Zealand, Hawaii; '
+            'POSIX TZ strings) x 12 days (winter, summer, the days the clocks change, epoch and 2038 boundaries) x every hour '
+            'at :00 and :30: the same conversions as c13.seconds - serial of the instant, round trip, DATEVALUE(serial) = '
+            'serial, and the whole-day serial converted to a date is that day at midnight; the zone of the host never '
+            'matters; non-trivial = all')
+    min_cases = 60
+    min_nontrivial = 2000
+    min_classes = 5
+
+    def cases(self, tier, unit):
+        for tz in ZONES:
+            for day in TZ_DAYS:
+                yield [tz, day]
+
+    def check(self, env, case):
+        out = []
+        if case[0] == 'tz':
+            _, tz, iso = case
+            with local_timezone(tz):
+                self.instant(env, tz, DT.fromisoformat(iso), out)
+            return out
+        tz, day = case
+        d = D.fromisoformat(day)
+        env.note(tz.split(',')[0])
+        with local_timezone(tz):
+            for h in range(24):
+                for m in (0, 30):
+                    env.nt()
+                    self.instant(env, tz, DT(d.year, d.month, d.day, h, m), out)
+                if len(out) > 10:
+                    break
+        for f in out:
+            f['msg'] = '[process time zone %s] %s' % (tz, f['msg'])
+        return out
+
+    def instant(self, env, tz, t, out):
+        narrow = ['tz', tz, t.isoformat()]
+        tp = t - datetime.timedelta(minutes=30)
+        sp, _ = val(env, 'DATEVALUE(xd)', {'xd': tp})
+        check_instant(env, t, tp, sp, narrow, out)
+        if t.hour == 0 and t.minute == 0:
+            k = t.toordinal() - EPOCH_ORD
+            for f, vars in (('xk+0', {'xk': k}), ('DATEVALUE(xk)+0', {'xk': k}), ('xk*1', {'xk': float(k)})):
+                v, b = val(env, f, vars)
+                if not near_dt(v, t) and not (isnum(v) and abs(v - k) < 1e-9):
+                    out.append(fail('%s with the whole-day serial xk = %r is %s; expected %s at midnight (or the serial itself)' % (
+                        f, vars['xk'], show(v, b), t.date().isoformat()), enc(t), show(v, b), case=narrow))
+            for fn, want in (('YEAR', t.year), ('MONTH', t.month), ('DAY', t.day)):
+                v, b = val(env, '%s(xk)' % fn, {'xk': k})
+                if v != want:
+                    out.append(fail('%s(xk) with the whole-day serial xk = %d is %s, expected %d' % (fn, k, show(v, b), want), want,
+                                    show(v, b), case=narrow))
+
+
 class Millis(Sub):
     name = 'c13.milliseconds'
     rule = ('every millisecond of 24 chosen seconds (both sides of 1 Mar 1900, of the Unix epoch, leap days, last '
@@ -621,7 +681,7 @@ class Millis(Sub):
         return out
 
 
-SUBS = [Days(), Serials(), Offsets(), Instants(), Millis()]
+SUBS = [Days(), Serials(), Offsets(), Instants(), Timezones(), Millis()]
 
 
 def _guard(sub):
